@@ -453,7 +453,10 @@ def lemma_reflink(ctx):
     st = State()
     paths = eng.run(fn.name, [RefV(Cell(OpaqueV("std::fs::File", "infd"))), RefV(Cell(OpaqueV("std::fs::File", "outfd")))], st)
     ctx.paths += len(paths)
-    UNSUP = [95, 22, 18, 26]
+    # "cloning is unavailable here": EOPNOTSUPP, ENOTTY (ioctl unknown to this kernel/file system), ENOSYS, EXDEV, EINVAL, ETXTBSY -- must fall back;
+    # real failures that must never be taken for "unsupported": EIO, ENOSPC, EDQUOT, ENOMEM; any other errno may go either way
+    UNSUP = [95, 25, 38, 22, 18, 26]
+    FATAL = [5, 28, 122, 12]
     seen = set()
     for p in paths:
         if p.status != "return":
@@ -472,9 +475,9 @@ def lemma_reflink(ctx):
         if is_ok(p.ret):
             v = p.ret.fields[0]
             if en:
-                is_unsup = z3.Or(*[en[0].ret.t == k for k in UNSUP])
-                ctx.lemma(eng, "C15: a failed clone is reported as 'unsupported' (false) exactly for EOPNOTSUPP/EINVAL/EXDEV/ETXTBSY", p.pc,
-                          z3.And(is_unsup, z3.Not(v.t), r.t != 0))
+                not_fatal = z3.Not(z3.Or(*[en[0].ret.t == k for k in FATAL]))
+                ctx.lemma(eng, "C15: a failed clone is reported as 'unsupported' (false) only after a failed ioctl and never for EIO/ENOSPC/EDQUOT/ENOMEM", p.pc,
+                          z3.And(not_fatal, z3.Not(v.t), r.t != 0))
                 seen.add("unsupported")
             else:
                 ctx.lemma(eng, "C15: true is returned only when the ioctl succeeded", p.pc, z3.And(v.t, r.t == 0))
@@ -483,7 +486,8 @@ def lemma_reflink(ctx):
             if not en:
                 ctx.fail("C15: an error is returned only after a failed ioctl", str(trace_names(p)))
             else:
-                ctx.lemma(eng, "C15: any other errno is a hard error", p.pc, z3.And(r.t != 0, z3.Not(z3.Or(*[en[0].ret.t == k for k in UNSUP]))))
+                ctx.lemma(eng, "C15: no 'cloning is unavailable' errno (EOPNOTSUPP, ENOTTY, ENOSYS, EXDEV, EINVAL, ETXTBSY) is a hard error: reflink=auto must fall back",
+                          p.pc, z3.And(r.t != 0, z3.Not(z3.Or(*[en[0].ret.t == k for k in UNSUP]))), key="reflink:enotty-enosys-fatal")
                 seen.add("error")
     for k in ("ok", "unsupported", "error"):
         (ctx.passed if k in seen else ctx.fail)("witness: %s" % k, str(sorted(seen)))
